@@ -1,4 +1,6 @@
 import Hertz.Proofs.Http1
+import Hertz.Proofs.PrefixStable
+import Hertz.Proofs.PrefixStableResp
 /-!
 # C02 — message parsing does not depend on how bytes are split into reads
 
@@ -8,17 +10,60 @@ splits and compares each run with that single model answer, so any dependence of
 implementation on segmentation is a disagreement.  (The obs-fold defect F2, where a read ending
 inside the body corrupted it, was found this way and is fixed in /repo.)
 
-Proved here (the facts that make "retry with more bytes" sound on the request side):
-* `header_block_end_stable`: once `ext.ReadRawHeaders` has seen the blank line, appending bytes never
-  moves it — the completeness pre-check that `req.parse` runs before scanning is monotone;
-* `first_delimiter_stable`: `bytes.IndexByte` results (line ends, colons) inside the received prefix do
-  not change when more bytes arrive.
+The real server parses the request head from whatever is buffered; on "need more" it reads more bytes
+and parses again **from the start**.  That retry scheme is independent of segmentation iff parsing a
+prefix either says "need more" or already gives the final answer.  Proved here, for all inputs:
 
-TODO-OPEN: `head_prefix_stable` (`parseReqHead b = ok/bad → parseReqHead (b ++ x)` is the same);
-`client_read_segmentation_invariant`.  Both are exercised per case by the correspondence.
+* `header_block_end_stable`, `first_delimiter_stable`: the completeness pre-check and `bytes.IndexByte`
+  results do not move when bytes are appended;
+* `head_prefix_stable` (**the statement above**): if `parseReqHead dn b` is `ok (head, n)` or `bad`, then
+  `parseReqHead dn (b ++ x)` is the same outcome — same head (method, uri, header list, framing, trailer
+  names), same consumed count — for every `x`; `head_ok_prefix_stable` adds `n ≤ b.length` (what was consumed
+  lies inside the bytes that had been received).  The result type of the model has no "edited buffer"
+  component, so there is nothing further to compare;
+* `retry_eq_whole`, `retry_eq_whole_segments`: "parse `a`; if need-more parse `a ++ b`" equals "parse `a ++ b`",
+  and the same for any number of segments (`retryParse`);
+* `needMore_after_precheck_never_ok`: the only way the header scanner itself (after the completeness pre-check
+  passed) can ask for more is a line without a colon before the blank line, and then no extension is ever
+  accepted — so the in-place edits the real scanner has made to the buffer by that time (key normalisation,
+  obs-fold compaction; not part of this model) can never reach a handler;
+* `body_prefix_stable`: `continueReadBody` (fixed length / chunked + trailers / no body): if the read
+  completes on `s` while the stream merely stalls after `s`, then on every `s ++ x` and under either way the
+  stream can end the same head, body, trailers are delivered and exactly `x` more is left;
+  `chunked_body_prefix_stable`, `chunk_size_prefix_stable`, `fixed_body_prefix_stable`,
+  `trailer_prefix_stable` are the same for the parts, `body_tooLarge_prefix_stable` for the 413 verdict;
+* `served_prefix_stable` (loop level): everything the loop has emitted on the bytes received so far, except
+  possibly one final error response / hand-over marker, is a prefix of what it emits on any extension.
+
+False as first stated, kept as `…_fails_at` + partial: "every body-reader *error* other than eof/timeout is
+prefix stable" — `body_error_prefix_stable_fails_at`: the chunk-size line `5` cut before its `\r` is `bad`
+("cannot read '\r' char" is a public 400 error whatever the cause), while `5\r\nhello\r\n0\r\n` is a body.
+This is not a segmentation dependence of the server: the body reader is not a retry parser, it blocks on the
+connection (C13) and the error only arises when the stream *ends* there (`End`); it means the model's `.bad`
+does not tell "malformed" from "cut short", so error stability is stated for `tooLarge` only.
+
+* client side (`RespRead`): `resp_head_prefix_stable` (the response-head parser, which has no pre-check: a `kv`
+  answer of the scanner is either stable or its obs-fold look-ahead ran dry, and then the rest has no line feed
+  and the next call says "need more"), `client_read_segmentation_invariant` (the `resp.ReadHeader` retry loop
+  over any segmentation equals one parse of the concatenation), `client_response_prefix_stable` (a whole framed
+  response read to its end is read identically from every extension).
+
+TODO-OPEN: nothing of C02 remains open at the level of the models (request and response side).  Not claimed:
+(a) error verdicts of the body readers other than `tooLarge` (see `body_error_prefix_stable_fails_at`);
+(b) unframed ("read until close") responses, which by definition depend on what follows;
+(c) the in-place buffer edits of the real scanner are not part of the model (`needMore_after_precheck_never_ok`
+shows they cannot matter on the request side); (d) the step from the model to the Go code stays the sampled
+correspondence check (every two-way split, byte-wise and random k-way delivery).
 -/
 namespace Hertz.Props.C02
 open Hertz Hertz.H1
+
+/-- decidable equality of parser results, for the concrete examples below only -/
+local instance decEqExcept {ε α : Type} [DecidableEq ε] [DecidableEq α] : DecidableEq (Except ε α)
+  | .ok a, .ok b => if h : a = b then isTrue (by rw [h]) else isFalse (fun h' => h (Except.ok.inj h'))
+  | .error a, .error b => if h : a = b then isTrue (by rw [h]) else isFalse (fun h' => h (Except.error.inj h'))
+  | .ok _, .error _ => isFalse (fun h => by cases h)
+  | .error _, .ok _ => isFalse (fun h => by cases h)
 
 theorem header_block_end_stable (b x : Bytes) (n : Nat) (h : rawHeadersLen b = some n) :
     rawHeadersLen (b ++ x) = some n := rawHeadersLen_append b x n h
@@ -27,5 +72,213 @@ theorem first_delimiter_stable (c : UInt8) (b x : Bytes) (n : Nat) (h : indexByt
     indexByte c (b ++ x) = some n := indexByte_append c b x n h
 
 example : rawHeadersLen [72, 58, 32, 97, 13, 10, 13, 10] = some 8 := by decide
+
+/-! ## request head -/
+
+/-- `GET / HTTP/1.1\r\nA: b\r\n c\r\nHost: a\r\n\r\n` (with an obs-fold continuation line) -/
+def exReq : Bytes :=
+  [71,69,84,32,47,32,72,84,84,80,47,49,46,49,13,10, 65,58,32,98,13,10, 32,99,13,10, 72,111,115,116,58,32,97,13,10, 13,10]
+/-- `GET / HTTP/1.1\r\nA b\r\n\r\n` — a header line without a colon -/
+def exNoColon : Bytes := [71,69,84,32,47,32,72,84,84,80,47,49,46,49,13,10, 65,32,98,13,10, 13,10]
+
+/-- **Prefix stability of `req.parse`.** Whatever the parser answers on the bytes received so far — a
+complete head with its consumed count, or a rejection — it answers on every extension of those bytes, unless
+the answer was "need more". -/
+theorem head_prefix_stable (dn : Bool) (b x : Bytes) (r : Except HeadErr (ReqHead × Nat))
+    (h : parseReqHead dn b = r) (hr : r ≠ .error .needMore) : parseReqHead dn (b ++ x) = r :=
+  parseReqHead_append dn b x r h hr
+
+theorem head_ok_prefix_stable (dn : Bool) (b x : Bytes) (hd : ReqHead) (n : Nat)
+    (h : parseReqHead dn b = .ok (hd, n)) : parseReqHead dn (b ++ x) = .ok (hd, n) ∧ n ≤ b.length :=
+  ⟨parseReqHead_append dn b x _ h (by simp), parseReqHead_le dn b hd n h⟩
+
+theorem head_bad_prefix_stable (dn : Bool) (b x : Bytes) (h : parseReqHead dn b = .error .bad) :
+    parseReqHead dn (b ++ x) = .error .bad := parseReqHead_append dn b x _ h (by simp)
+
+set_option maxRecDepth 100000 in
+example : parseReqHead false exReq =
+    .ok ({ method := [71,69,84], uri := [47], host := [97], h := [([65], [98,32,99])] }, 37) := by decide +kernel
+set_option maxRecDepth 100000 in
+example : parseReqHead false [71,69,84,13,10,13,10] = .error .bad := by decide +kernel
+set_option maxRecDepth 100000 in
+/-- the hypothesis `≠ needMore` excludes something: a proper prefix of a request -/
+example : parseReqHead false (exReq.take 30) = .error .needMore := by decide +kernel
+
+/-- **Retrying equals parsing the whole.** The server's scheme "parse what is buffered; on need-more read on
+and parse again from the start" gives, for every stream and every split `a ++ b` of it, the answer of one
+parse of the whole. -/
+theorem retry_eq_whole (dn : Bool) (a b : Bytes) :
+    (match parseReqHead dn a with
+     | .error .needMore => parseReqHead dn (a ++ b)
+     | r => r) = parseReqHead dn (a ++ b) := by
+  split
+  · rfl
+  · rename_i r hr
+    exact (parseReqHead_append dn a b _ rfl (fun h => hr h)).symm
+
+/-- the same for any number of reads: `retryParse` takes the segments into the buffer one at a time -/
+theorem retry_eq_whole_segments (dn : Bool) (buf : Bytes) (segs : List Bytes) :
+    retryParse dn buf segs = parseReqHead dn (buf ++ segs.flatten) := retryParse_eq dn segs buf
+
+set_option maxRecDepth 100000 in
+example : retryParse false [] [exReq.take 5, (exReq.drop 5).take 20, exReq.drop 25, [71, 69]] =
+    .ok ({ method := [71,69,84], uri := [47], host := [97], h := [([65], [98,32,99])] }, 37) := by decide +kernel
+
+/-- After the completeness pre-check has passed (`rawHeadersLen = some _`), the scanner asks for more bytes only
+on a line without a colon, and then no extension is ever accepted.  (So buffer edits made by the real scanner
+before that point never reach a handler.) -/
+theorem needMore_after_precheck_never_ok (dn : Bool) (b x : Bytes) (hd0 : ReqHead) (m k : Nat)
+    (h1 : parseFirstLine b = .ok (hd0, m)) (h2 : rawHeadersLen (b.drop m) = some k)
+    (h3 : parseReqHead dn b = .error .needMore) (hd : ReqHead) (n : Nat) :
+    parseReqHead dn (b ++ x) ≠ .ok (hd, n) :=
+  parseReqHead_needMore_never_ok dn b x hd0 m k h1 h2 h3 hd n
+
+set_option maxRecDepth 100000 in
+example : (∃ hd0 m k, parseFirstLine exNoColon = .ok (hd0, m) ∧ rawHeadersLen (exNoColon.drop m) = some k) ∧
+    parseReqHead false exNoColon = .error .needMore :=
+  ⟨⟨{ method := [71,69,84], uri := [47] }, 16, 7, by decide +kernel, by decide +kernel⟩, by decide +kernel⟩
+
+/-! ## body -/
+
+/-- `3\r\nabc\r\n0\r\nX: y\r\n\r\n` -/
+def exChunked : Bytes := [51,13,10,97,98,99,13,10,48,13,10,88,58,32,121,13,10,13,10]
+
+/-- **`req.ContinueReadBody`**: a body read that completes on `s` (with the stream merely stalling after `s`)
+gives the same head, body and trailers on every extension `s ++ x` under either way the stream can end, and
+leaves exactly `x` more. -/
+theorem body_prefix_stable (cfg : Cfg) (e : End) (hd : ReqHead) (s x : Bytes)
+    (hd' : ReqHead) (body : Bytes) (tr : List (Bytes × Bytes)) (rest : Bytes)
+    (h : continueReadBody cfg .stall hd s = .ok hd' body tr rest) :
+    continueReadBody cfg e hd (s ++ x) = .ok hd' body tr (rest ++ x) :=
+  continueReadBody_append cfg e hd s x hd' body tr rest h
+
+set_option maxRecDepth 100000 in
+example : (match continueReadBody {} .stall { cl := -1, trailer := [[88]] } exChunked with
+    | .ok _ body tr rest => body == [97,98,99] && tr == [([88],[121])] && rest == []
+    | .err _ => false) = true := by decide +kernel
+set_option maxRecDepth 100000 in
+example : (match continueReadBody {} .stall { cl := 3 } [97,98,99,100] with
+    | .ok _ body _ rest => body == [97,98,99] && rest == [100]
+    | .err _ => false) = true := by decide +kernel
+
+theorem chunked_body_prefix_stable (e e' : End) (maxBody fuel fuel' : Nat) (dst s x body rest : Bytes)
+    (h : readBodyChunked e maxBody fuel dst s = .ok (body, rest)) (hf : fuel ≤ fuel') :
+    readBodyChunked e' maxBody fuel' dst (s ++ x) = .ok (body, rest ++ x) :=
+  readBodyChunked_append e e' maxBody x fuel fuel' dst s body rest h hf
+
+theorem chunk_size_prefix_stable (e e' : End) (s x : Bytes) (n : Nat) (rest : Bytes)
+    (h : parseChunkSize e s = .ok (n, rest)) : parseChunkSize e' (s ++ x) = .ok (n, rest ++ x) :=
+  parseChunkSize_append e e' s x n rest h
+
+theorem fixed_body_prefix_stable (e e' : End) (n : Nat) (s x b rest : Bytes) (h : takeBody e n s = .ok (b, rest)) :
+    takeBody e' n (s ++ x) = .ok (b, rest ++ x) := takeBody_append e e' n s x b rest h
+
+theorem trailer_prefix_stable (dn : Bool) (tr : List (Bytes × Option Bytes)) (buf x : Bytes)
+    (p : List (Bytes × Option Bytes) × Nat) (h : parseTrailer dn tr buf = .ok p) :
+    parseTrailer dn tr (buf ++ x) = .ok p ∧ p.2 ≤ buf.length := parseTrailer_append dn tr buf x p h
+
+theorem body_tooLarge_prefix_stable (e e' : End) (maxBody fuel fuel' : Nat) (dst s x : Bytes)
+    (h : readBodyChunked e maxBody fuel dst s = .error .tooLarge) (hf : fuel ≤ fuel') :
+    readBodyChunked e' maxBody fuel' dst (s ++ x) = .error .tooLarge :=
+  readBodyChunked_tooLarge_append e e' maxBody x fuel fuel' dst s h hf
+
+set_option maxRecDepth 100000 in
+example : readBodyChunked .stall 0 20 [] exChunked = .ok ([97,98,99], [88,58,32,121,13,10,13,10]) := by
+  decide +kernel
+set_option maxRecDepth 100000 in
+example : readBodyChunked .stall 2 20 [] exChunked = .error .tooLarge := by decide +kernel
+set_option maxRecDepth 100000 in
+example : parseTrailer false [([88], none)] [88,58,32,121,13,10,13,10] = .ok ([([88], some [121])], 8) := by
+  decide +kernel
+
+/-- the full statement for errors: every verdict of the chunked reader other than "the wire ended" survives
+appended bytes -/
+def BodyErrorPrefixStable : Prop :=
+  ∀ (e : End) (maxBody fuel : Nat) (s x : Bytes) (err : RdErr),
+    readBodyChunked e maxBody fuel [] s = .error err →
+    err ≠ .eof → err ≠ .timeout → err ≠ .unexpectedEOF → err ≠ .hzTimeout →
+    readBodyChunked e maxBody (fuel + x.length) [] (s ++ x) = .error err
+
+set_option maxRecDepth 100000 in
+/-- FALSE of the model: `5` (chunk-size line cut before `\r`) is `bad`; `5\r\nhello\r\n0\r\n` is a body. -/
+theorem body_error_prefix_stable_fails_at : ¬ BodyErrorPrefixStable := by
+  intro h
+  have h1 : readBodyChunked .stall 0 2 [] [53] = .error .bad := by decide +kernel
+  have h2 := h .stall 0 2 [53] [13,10,104,101,108,108,111,13,10,48,13,10] .bad h1
+    (by decide) (by decide) (by decide) (by decide)
+  revert h2
+  decide +kernel
+
+/-- partial: see `chunked_body_prefix_stable` (every completed read) and `body_tooLarge_prefix_stable`. -/
+theorem body_error_prefix_stable_partial (e e' : End) (maxBody fuel : Nat) (s x : Bytes)
+    (h : readBodyChunked e maxBody fuel [] s = .error .tooLarge) :
+    readBodyChunked e' maxBody (fuel + x.length) [] (s ++ x) = .error .tooLarge :=
+  readBodyChunked_tooLarge_append e e' maxBody x fuel _ [] s h (by omega)
+
+/-! ## the loop -/
+
+/-- **Loop level.** Everything the server has emitted on the bytes `s` received so far (while it merely waits
+for more) — except possibly one final closing error response (status ≠ 200) or the hand-over marker — is a
+prefix of what it emits on every extension `s ++ x`, however that longer stream ends.  Handled requests and
+their responses are never revised by later bytes. -/
+theorem served_prefix_stable (cfg : Cfg) (e : End) (s x : Bytes) :
+    ∃ pre tail more, serve cfg .stall s = pre ++ tail ∧
+      (tail = [] ∨ tail = [.unmodelled] ∨ ∃ st, st ≠ 200 ∧ tail = [.resp st true]) ∧
+      serve cfg e (s ++ x) = pre ++ more := serve_extension cfg e s x
+
+set_option maxRecDepth 100000 in
+/-- one complete request followed by the first bytes of the next: the request is handled, the 408 for the
+incomplete one is the replaceable tail -/
+example : serve {} .stall (exReq ++ [71, 69, 84, 32]) =
+    [.req { head := { method := [71,69,84], uri := [47], host := [97], h := [([65], [98,32,99])] },
+            body := [], trailers := [] }, .resp 200 false] ++ [.resp 408 true] := by decide +kernel
+
+/-! ## client side: the response reader -/
+
+/-- `HTTP/1.1 200 OK\r\nContent-Length: 2\r\n\r\nhi` -/
+def exResp : Bytes :=
+  [72,84,84,80,47,49,46,49,32,50,48,48,32,79,75,13,10, 67,111,110,116,101,110,116,45,76,101,110,103,116,104,58,32,50,13,10,
+   13,10, 104,105]
+
+/-- **Prefix stability of the client's `resp.parse`** (which has no completeness pre-check): an answer other
+than "need more" on the bytes received so far is the answer on every extension. -/
+theorem resp_head_prefix_stable (dn : Bool) (b x : Bytes) (r : Except HeadErr (RespRead.RespHead × Nat))
+    (h : RespRead.parseRespHead dn b = r) (hr : r ≠ .error .needMore) : RespRead.parseRespHead dn (b ++ x) = r :=
+  RespRead.parseRespHead_append dn b x r h hr
+
+theorem resp_head_ok_prefix_stable (dn : Bool) (b x : Bytes) (hd : RespRead.RespHead) (n : Nat)
+    (h : RespRead.parseRespHead dn b = .ok (hd, n)) :
+    RespRead.parseRespHead dn (b ++ x) = .ok (hd, n) ∧ n ≤ b.length :=
+  ⟨RespRead.parseRespHead_append dn b x _ h (by simp), RespRead.parseRespHead_le dn b hd n h⟩
+
+/-- **The client's `resp.ReadHeader` retry loop does not depend on segmentation**: taking the segments into
+the buffer one at a time and parsing again from the start on every "need more" gives the answer of one parse
+of the concatenation. -/
+theorem client_read_segmentation_invariant (dn : Bool) (buf : Bytes) (segs : List Bytes) :
+    RespRead.retryParse dn buf segs = RespRead.parseRespHead dn (buf ++ segs.flatten) :=
+  RespRead.retryParse_eq dn segs buf
+
+/-- **Whole response.** A framed response (optional `100 Continue`, head, fixed-length or chunked body,
+trailers) read completely from `s` while the stream merely stalls after `s` is read identically from every
+extension `s ++ x`, under either way the stream can end, leaving exactly `x` more.  (A response without
+framing is "read until close" and is excluded by `Framed`.) -/
+theorem client_response_prefix_stable (dn : Bool) (maxBody : Nat) (e : End) (s x : Bytes) (res : RespRead.Result)
+    (hf : ∀ hd s1, RespRead.readHeaders dn .stall s = .ok (hd, s1) → RespRead.Framed hd)
+    (h : RespRead.readResponse dn maxBody .stall s = .ok res) :
+    RespRead.readResponse dn maxBody e (s ++ x) = .ok { res with rest := res.rest ++ x } :=
+  RespRead.readResponse_append dn maxBody e s x res hf h
+
+set_option maxRecDepth 100000 in
+example : RespRead.parseRespHead false exResp = .ok ({ status := 200, cl := 2, clBytes := [50] }, 38) := by
+  decide +kernel
+set_option maxRecDepth 100000 in
+example : RespRead.retryParse false [] [exResp.take 11, (exResp.drop 11).take 9, exResp.drop 20] =
+    .ok ({ status := 200, cl := 2, clBytes := [50] }, 38) := by decide +kernel
+set_option maxRecDepth 100000 in
+example : RespRead.readResponse false 0 .stall exResp =
+      .ok { head := { status := 200, cl := 2, clBytes := [50] }, body := [104,105], trailers := [], rest := [] } ∧
+    RespRead.readHeaders false .stall exResp = .ok ({ status := 200, cl := 2, clBytes := [50] }, [104,105]) ∧
+    RespRead.Framed { status := 200, cl := 2, clBytes := [50] } :=
+  ⟨by decide +kernel, by decide +kernel, Or.inr (by decide)⟩
 
 end Hertz.Props.C02
